@@ -94,7 +94,7 @@ func selName(e ast.Expr) (string, string) { // pkg.Name or recv.Name
 	return "", ""
 }
 
-func strLit(e ast.Expr) (string, bool) {
+func recStrLit(e ast.Expr) (string, bool) {
 	if l, ok := e.(*ast.BasicLit); ok && l.Kind == token.STRING {
 		s, err := strconv.Unquote(l.Value)
 		return s, err == nil
@@ -122,7 +122,7 @@ func containsNeedles(e ast.Expr, subject string) ([]string, bool) {
 		if id, ok := v.Args[0].(*ast.Ident); !ok || id.Name != subject {
 			return nil, false
 		}
-		s, ok := strLit(v.Args[1])
+		s, ok := recStrLit(v.Args[1])
 		return []string{s}, ok
 	}
 	return nil, false
@@ -266,7 +266,7 @@ func commandStrings(fd *ast.FuncDecl, varName string) ([]string, bool) {
 					continue
 				}
 				if id, isId := k.Key.(*ast.Ident); isId && id.Name == "Command" {
-					s, isS := strLit(k.Value)
+					s, isS := recStrLit(k.Value)
 					if !isS {
 						ok = false
 					}
@@ -305,7 +305,7 @@ func xRecovery(x *X) {
 			for _, sp := range gd.Specs {
 				vs := sp.(*ast.ValueSpec)
 				if id, ok := vs.Type.(*ast.Ident); ok && id.Name == "ErrorType" && len(vs.Names) == 1 && len(vs.Values) == 1 {
-					if s, ok := strLit(vs.Values[0]); ok {
+					if s, ok := recStrLit(vs.Values[0]); ok {
 						errTypeVal[vs.Names[0].Name] = s
 					}
 				}
